@@ -346,13 +346,15 @@ int apply_low (const char *fun, object_t * ob, int num_arg) {
               csp->num_local_variables = num_arg;
               entry->variable_index_offset = variable_index_offset = vio;
               entry->function_index_offset = function_index_offset = fio;
+              /* complete the entry before the locals are pushed: that can raise "Stack overflow",
+               * and a half-filled entry would keep the previous occupant's program pointer */
+              entry->num_arg = fundefp->num_arg;
+              entry->num_local = fundefp->num_local;
+              entry->progp = current_prog;
               if (funflags & NAME_TRUE_VARARGS)
                 setup_varargs_variables (csp->num_local_variables, fundefp->num_local, fundefp->num_arg);
               else
                 setup_variables (csp->num_local_variables, fundefp->num_local, fundefp->num_arg);
-              entry->num_arg = fundefp->num_arg;
-              entry->num_local = fundefp->num_local;
-              entry->progp = current_prog;
               previous_ob = current_object;
               current_object = ob;
               opt_trace (TT_EVAL, "calling \"%s\": offset %+d", fun, funp->address);
